@@ -2170,6 +2170,9 @@ class Scheduler:
                     # deduplicated onto (or cached from). Reuse its CallNode, which lists the
                     # child calls that actually ran.
                     assert job.was_cached
+                    # No child job ran beneath this job, so the tasks used beneath the recorded
+                    # call come from the backend (as for cached jobs that resolve).
+                    job.subtree_tasks = self._get_subtree_tasks(job)
                 else:
                     error_value = ErrorValue(
                         error, error_traceback or Traceback.from_error(error)
